@@ -108,7 +108,7 @@ def _shift(h, m):
     return {S._mmul(mm, m): c for mm, c in h.items()}
 
 
-def certificate(d, hyps, max_gens=6000, rounds=2, timeout_ms=8000, slack=0):
+def certificate(d, hyps, max_gens=6000, rounds=3, timeout_ms=8000, slack=2):
     """d, hyps: formal polynomials.  Returns list of (hyp index, multiplier, (cre, cim)) or None"""
     if not d:
         return []
@@ -123,8 +123,8 @@ def certificate(d, hyps, max_gens=6000, rounds=2, timeout_ms=8000, slack=0):
             tv = {v for v, _ in t}
             for hi, h in enumerate(hyps):
                 for u in h:
-                    if u and not all(v in tv for v, _ in u):
-                        continue
+                    if not u or not all(v in tv for v, _ in u):
+                        continue  # (constant terms are never used as divisors: they only produce unrelated multiples)
                     m = _divides(u, t)
                     if m is None or (hi, m) in gens:
                         continue
@@ -221,6 +221,14 @@ def prepare(ctx):
     if st is None:
         st = ctx.__dict__['_ideal_state'] = {'n': 0, 'hyps': [], 'seen': set()}
     side_R = ctx.__dict__.get('side_R', [])
+    # definitions of sqrt variables:  w*w - radicand == 0
+    for v, rad in list(reg.sqrt_def.items()):
+        if v not in st.setdefault('sqrt', set()):
+            st['sqrt'].add(v)
+            w2 = {((v, 2), ): (1, 0)}
+            g = to_formal(S._padd(w2, rad, -1), reg)
+            if g:
+                st['hyps'].append(g)
     while st['n'] < len(side_R):
         r = side_R[st['n']]
         st['n'] += 1
@@ -259,9 +267,11 @@ def follows(ctx, d, stats=None):
     hyps = prepare(ctx)
     if not hyps:
         return False
+    if S.REG.sqrt_def:
+        d = S.R(S._clear_neg_sqrt(d.n)) if hasattr(S, '_clear_neg_sqrt') else d
     t0 = time.time()
     f = to_formal(d.n, S.REG)
-    cert = certificate(f, hyps, max_gens=ctx.opts.get('ideal_max_gens', 6000), rounds=ctx.opts.get('ideal_rounds', 2),
+    cert = certificate(f, hyps, max_gens=ctx.opts.get('ideal_max_gens', 6000), rounds=ctx.opts.get('ideal_rounds', 3), slack=ctx.opts.get('ideal_slack', 2),
                        timeout_ms=ctx.opts.get('ideal_timeout_ms', 8000))
     ctx.tq += time.time() - t0
     ctx.nq += 1
